@@ -87,6 +87,18 @@ Theorem C14_same_outcome :
 Proof. exact same_outcome. Qed.
 Print Assumptions C14_same_outcome.
 
+(* interp.New + Execute on a new interpreter = ExecProgram (newInterp + setExecuteConfig, no resetCore): the
+   same verdict and the same value of EVERY observable field (no field excepted) at the start of executeAll *)
+Theorem C14_execprogram_eq_new_execute :
+  forall sv e pc (F : val), sv_noninterference sv ->
+    (forall vars s f, ~ In f may_setVarByName -> fst (sv vars s) f = s f) ->
+    forall c, c_funcs c = F ->
+      let a := m_prepare sv e EExec c (fresh e pc) in
+      let b := m_setExecuteConfig sv e c (fresh e pc) in
+      snd a = snd b /\ (snd a = None -> agree (obs_fields EExec) (fst a) (fst b)).
+Proof. exact execprogram_eq_new_execute. Qed.
+Print Assumptions C14_execprogram_eq_new_execute.
+
 (* every reachable state keeps the program constants, the sizes of globals / global arrays, and nativeFuncs *)
 Theorem C14_reachable_invariant :
   forall sv e pc F I run, hyps sv I run -> forall g, reachable sv e pc F I run g -> Inv e pc F g.
